@@ -175,7 +175,8 @@ class WireModel:
         self.session_by_id[spec.session_id] = spec.idx
 
     def register_region(self, sidx: int, addr: Addr):
-        self.session_regions[sidx].add(addr)
+        if sidx in self.session_regions:
+            self.session_regions[sidx].add(addr)
 
     def assoc(self, viewer: ViewerStub) -> AssocModel:
         m = self.assocs.get(viewer.proxy_udp)
